@@ -18,7 +18,7 @@ C04 (apply_galois_inplace) [N]: symbolic buffer contents through the block marke
   applied; the NAF loop re-applies to the same ciphertext and key set with the loop variable as step;
   conjugation uses the element of step 0.
 """
-from facts import walk, callee, root_local, strip, local_of, target_key
+from facts import walk, callee, root_local, strip, local_of, target_key, Tree
 from flow import Flow
 
 IGN = {"t", "ta", "l", "c", "el", "id", "lid", "loop_id"}
@@ -437,3 +437,50 @@ def render_full(e):
             return [norm(y) for y in x]
         return x
     return json.dumps(norm(e), sort_keys=True)
+
+
+def run_galois_total(facts, rep):
+    """R-PAIR(total) [N]: GaloisTool::apply defines every coefficient of its out-buffer.  The automorphism permutes all N
+    index positions; the out-parameter `result` may hold anything on entry, so the loop that stores into it must range
+    over the tool's coefficient count — not over the (possibly shorter) operand — unless the buffer is cleared first."""
+    from facts import Defs
+    R = "R-PAIR(total)"
+    rep.rule(R, "GaloisTool::apply stores to its out-buffer for every index of the ring degree (or clears it first)")
+    p = "util::galois::GaloisTool::apply"
+    if not rep.anchor(R, p, p in facts.hir):
+        return 0
+    rep.fn(p)
+    body = facts.hir[p]
+    it = facts.items[p]
+    plid = {q["pat"]["name"]: q["pat"]["lid"] for q in it["params"] if q["pat"].get("k") == "PBind"}
+    outs = [q["pat"]["lid"] for q in it["params"] if q["pat"].get("k") == "PBind" and q.get("ty", "").startswith("&mut")]
+    ins = [q["pat"]["lid"] for q in it["params"] if q["pat"].get("k") == "PBind" and q.get("ty", "").startswith("&[")]
+    defs = Defs(body)
+    tree = Tree(body)
+    found = False
+    for x in walk(body):
+        if x.get("k") == "Assign" and strip(x["lhs"]).get("k") == "Index" and \
+                (root_local(strip(x["lhs"])["e"]) or (None,))[0] in outs:
+            L = tree.enclosing(x, ("For", "While", "Loop"))
+            if L is None:
+                continue
+            found = True
+            src = L.get("iter") or L.get("c")
+            mentions_in = any(y.get("k") == "Path" and y.get("res") == "local" and y.get("lid") in ins for y in defs.closure(src))
+            mentions_n = any(y.get("k") == "Field" and y.get("name") == "coeff_count" for y in defs.closure(src))
+            cleared = any(y.get("k") == "MCall" and y.get("name") == "fill" and (root_local(y["recv"]) or (None,))[0] in outs and
+                          (y.get("l", 0), y.get("c", 0)) < (L.get("l", 0), L.get("c", 0)) for y in walk(body))
+            if mentions_n and not mentions_in:
+                rep.ok(R, "apply", "the storing loop ranges over the tool's coefficient count", facts.loc(p, L))
+            elif cleared:
+                rep.ok(R, "apply", "the out-buffer is cleared before a loop over the operand", facts.loc(p, L))
+            elif mentions_in:
+                rep.violation(R, "apply", "the loop that stores into the out-buffer ranges over the operand, which may be shorter "
+                              "than the ring degree (plaintexts are): the images of the implicit zero coefficients are never "
+                              "written, so the rest of the out-buffer keeps whatever it held", facts.loc(p, L))
+            else:
+                rep.unresolved(R, "apply", "iteration space of the storing loop not recognised", facts.loc(p, L))
+            break
+    if not found:
+        rep.unresolved(R, "apply", "no indexed store into the out-buffer inside a loop", facts.loc(p))
+    return 1
